@@ -198,6 +198,31 @@ class Engine:
                     m.attrs = {}
                     m.stack = []
                 self.out.fault("context_release")
+            elif kind == "wsgi":
+                # a request served through LocalManager.make_middleware: data stored during the request is
+                # released when the server closes the response - in this context only
+                def app(environ, start_response):
+                    setattr(L, name, int(a2))
+                    S.push(int(a2))
+                    start_response("200 OK", [])
+                    return [b"a", b"b", b"c"]
+
+                it = self.manager.make_middleware(app)({"REQUEST_METHOD": "GET"}, lambda *a, **k: None)
+                m.attrs[name] = int(a2)
+                m.stack.append(int(a2))
+                n_items = 0
+                for _ in it:
+                    n_items += 1
+                    if n_items > (int(a2) % 3):
+                        break  # the server may stop iterating early
+                mid = self.observe()
+                if mid != m.snapshot():
+                    self.vio("visible-state-differs/after=wsgi-request-body", f"context {c} sees {mid} during the request, model {m.snapshot()}")
+                it.close()
+                m.attrs = {}
+                m.stack = []
+                self.out.fault("context_release")
+                self.out.probe("middleware_request_released")
             elif kind == "cvset":
                 self.CV.set(int(a2))
                 m.cv = int(a2)
@@ -309,7 +334,7 @@ class Engine:
             return type(e).__name__
 
 
-OPKINDS = ["set", "set", "set", "setbox", "get", "del", "iter", "push", "push", "pushbox", "pop", "top", "release", "cvset", "mkproxy", "pread", "pread", "pread", "pmut", "spawn"]
+OPKINDS = ["set", "set", "set", "setbox", "wsgi", "get", "del", "iter", "push", "push", "pushbox", "pop", "top", "release", "cvset", "mkproxy", "pread", "pread", "pread", "pmut", "spawn"]
 
 
 class LocalsIsolation(Scenario):
@@ -342,7 +367,7 @@ class LocalsIsolation(Scenario):
                     ops.append([c, "spawn"])
                     nctx += 1
                     continue
-            if k in ("set", "push", "cvset", "pmut"):
+            if k in ("set", "push", "cvset", "pmut", "wsgi"):
                 uniq += 1
                 ops.append([c, k, rng.randrange(3), uniq])
             elif k in ("setbox", "pushbox"):
@@ -384,7 +409,7 @@ class LocalsIsolation(Scenario):
         out.digest = tr.digest()
         out.trace = tr.events
         out.steps = len(interleaving)
-        mutators = {c for c, k in interleaving if k in ("set", "setbox", "push", "pushbox", "pop", "del", "release", "cvset")}
+        mutators = {c for c, k in interleaving if k in ("set", "setbox", "push", "pushbox", "pop", "del", "release", "cvset", "wsgi")}
         out.nontrivial = len(mutators) >= 2
         out.key = mode + "|" + ";".join(f"{c}{k}" for c, k in interleaving)
         out.config = mode
